@@ -39,9 +39,51 @@ EXTENDS GuardOps
 Ok(r)   == [err |-> FALSE, r |-> r]
 Err(e)  == [err |-> TRUE, e |-> e]
 
-Node(k, st, n, ch) == [k |-> k, st |-> st, n |-> n, vk |-> "", ch |-> ch]
-VNode(c)           == [k |-> "Value", st |-> c.st, n |-> "", vk |-> c.vk, ch |-> <<>>]
-VNodes(cs)         == [i \in 1 .. Len(cs) |-> VNode(cs[i])]
+\* Record nodes carry, besides kind / status / name / children, what the report builder and
+\* the path properties need from a value check: custom message, the `from` result (kind,
+\* path, value) and the `to` results.  Strip() forgets those.
+Node(k, st, n, ch) ==
+  [k |-> k, st |-> st, n |-> n, vk |-> "", msg |-> "", fq |-> "", fp |-> <<>>, fv |-> <<>>,
+   tq |-> <<>>, tp |-> <<>>, tv |-> <<>>, fo |-> "", tos |-> <<>>, ch |-> ch]
+\* the implementation reports literals and data values alike as "res"
+QKind(r) == IF r.q = "unres" THEN "unres" ELSE IF r.q = "lit" THEN "lit" ELSE "res"
+ToKind(r) == IF r.q = "unres" THEN "unres" ELSE "res"
+VNode(c, msg) ==
+  IF c.st = "PASS" \/ c.vk \in {"NoValueForEmptyCheck", "DependentRule"}
+  THEN [Node("Value", c.st, "", <<>>) EXCEPT !.vk = c.vk,
+                                             !.msg = IF c.st = "PASS" THEN "" ELSE msg]
+  ELSE [Node("Value", c.st, "", <<>>) EXCEPT
+          !.vk = c.vk, !.msg = msg,
+          !.fq = QKind(c.from), !.fp = c.from.v.p, !.fv = <<NoPaths(c.from.v)>>,
+          !.tq = [i \in 1 .. Len(c.to) |-> ToKind(c.to[i])],
+          !.tp = [i \in 1 .. Len(c.to) |-> c.to[i].v.p],
+          !.tv = [i \in 1 .. Len(c.to) |-> NoPaths(c.to[i].v)],
+          \* origin of the values (spec only, see Pub): "d" data, "l" rules file
+          !.fo = c.from.v.o, !.tos = [i \in 1 .. Len(c.to) |-> c.to[i].v.o]]
+VNodes(cs, msg)    == [i \in 1 .. Len(cs) |-> VNode(cs[i], msg)]
+MsgOf(c)           == IF "msg" \in DOMAIN c THEN c.msg ELSE ""
+
+\* the node as the implementation can show it (without the origin bookkeeping)
+RECURSIVE Pub(_)
+Pub(n) == [k |-> n.k, st |-> n.st, n |-> n.n, vk |-> n.vk, msg |-> n.msg, fq |-> n.fq, fp |-> n.fp,
+           fv |-> n.fv, tq |-> n.tq, tp |-> n.tp, tv |-> n.tv,
+           ch |-> [i \in 1 .. Len(n.ch) |-> Pub(n.ch[i])]]
+
+\* C10: every value check that is about a value of the data document names a path that
+\* resolves in the document to exactly that value
+RECURSIVE PathsSound(_, _)
+PathsSound(root, n) ==
+  /\ \A i \in 1 .. Len(n.ch) : PathsSound(root, n.ch[i])
+  /\ (n.k = "Value" /\ n.fo = "d") =>
+        LET at == Resolve(root, n.fp, 1) IN at.t # "none" /\ NoPaths(at) = n.fv[1]
+  /\ (n.k = "Value") =>
+        \A j \in 1 .. Len(n.tos) :
+           n.tos[j] = "d" =>
+             LET at == Resolve(root, n.tp[j], 1) IN at.t # "none" /\ NoPaths(at) = n.tv[j]
+
+RECURSIVE Strip(_)
+Strip(n) == [k |-> n.k, st |-> n.st, n |-> n.n, vk |-> n.vk,
+             ch |-> [i \in 1 .. Len(n.ch) |-> Strip(n.ch[i])]]
 
 Front(s) == SubSeq(s, 1, Len(s) - 1)
 Last(s)  == s[Len(s)]
@@ -146,7 +188,7 @@ QueryKeys(X, q, i, cur, env) ==
                ELSE ResolveRhs(X, part.rhs, env) IN
     IF rhs.err THEN rhs
     ELSE
-      LET keyv(j) == [t |-> "str", v |-> cur.k[j], p |-> cur.p]
+      LET keyv(j) == [t |-> "str", v |-> cur.k[j], p |-> cur.p, o |-> cur.o]
           sel == {j \in 1 .. Len(cur.k) : KeySelected(part.op, part.on, keyv(j), rhs.r)}
           ord == SelectSeq([j \in 1 .. Len(cur.k) |-> j], LAMBDA j : j \in sel)
           vals == [n \in 1 .. Len(ord) |-> cur.v[ord[n]]]
@@ -203,7 +245,8 @@ Query(X, q, i, cur, env) ==
            IF IsList(cur) THEN FilterList(X, q, i, part.c, cur.v, 1, env)
            ELSE IF IsMap(cur) THEN
              IF i = 1 THEN Err("panic:filter-first")
-             ELSE IF q[i - 1].p \in {"all", "idx"} THEN
+             \* (the parser inserts [*] after a leading variable: `%v[ f ]` is `%v[*][ f ]`)
+             ELSE IF q[i - 1].p \in {"all", "idx", "var"} THEN
                \* the map is one selected value: keep it iff the filter passes on it
                LET fenv == IF "filter_after_index_outer_scope" \in X.dev
                            THEN env ELSE Append(env, VScope(cur))
@@ -213,7 +256,7 @@ Query(X, q, i, cur, env) ==
              ELSE IF q[i - 1].p = "key" THEN
                FilterMapValues(X, q, i, part.c, cur.v, 1, env)
              ELSE Err("panic:filter-on-map")       \* eval_context.rs:752 unreachable!()
-           ELSE IF i > 1 /\ q[i - 1].p = "idx" THEN
+           ELSE IF i > 1 /\ q[i - 1].p \in {"idx", "var"} THEN
              LET f == EvalCnf(X, part.c, Append(env, VScope(cur))) IN
              IF f.err THEN f
              ELSE IF f.st = "PASS" THEN Query(X, q, i + 1, cur, env) ELSE Ok(<<>>)
@@ -326,12 +369,12 @@ EvalGac(X, c, env) ==
                            from == IF IsUnres(rs[i]) THEN rs[i] ELSE Res(rs[i].v)
                        IN IF ok THEN VPass(from) ELSE VFail("Unary", from, <<>>)]
               st == FoldChecks(c.all, cs)
-          IN [err |-> FALSE, st |-> st, n |-> Node("Clause", st, "", VNodes(cs))]
+          IN [err |-> FALSE, st |-> st, n |-> Node("Clause", st, "", VNodes(cs, MsgOf(c)))]
         ELSE
           LET ok == (~c.on) # neg
               st == IF ok THEN "PASS" ELSE "FAIL"
-              ch == IF ok THEN <<VNode(VPass(Lit([t |-> "null"])))>>
-                    ELSE <<VNode(VFail("NoValueForEmptyCheck", Lit([t |-> "null"]), <<>>))>>
+              ch == IF ok THEN <<VNode(VPass(Lit([t |-> "null"])), "")>>
+                    ELSE <<VNode(VFail("NoValueForEmptyCheck", Lit([t |-> "null"]), <<>>), MsgOf(c))>>
           IN [err |-> FALSE, st |-> st, n |-> Node("Clause", st, "", ch)]
       ELSE IF Len(rs) = 0 THEN
         \* DOC(QUERY_AND_FILTERING.md): an empty filtered selection makes the clause SKIP
@@ -344,7 +387,7 @@ EvalGac(X, c, env) ==
                        IF Polar(ts[i] = "t", c.on, neg) THEN VPass(rs[i])
                        ELSE VFail("Unary", rs[i], <<>>)]
               st == FoldChecks(c.all, cs)
-          IN [err |-> FALSE, st |-> st, n |-> Node("Clause", st, "", VNodes(cs))]
+          IN [err |-> FALSE, st |-> st, n |-> Node("Clause", st, "", VNodes(cs, MsgOf(c)))]
   ELSE
     LET rhs == ResolveRhs(X, c.rhs[1], env) IN
     IF rhs.err THEN rhs
@@ -355,7 +398,7 @@ EvalGac(X, c, env) ==
         LET b == BinaryChecks(c.op, c.on # neg, lhs.r, rhs.r) IN
         IF b.skip THEN [err |-> FALSE, st |-> "SKIP", n |-> Node("Clause", "SKIP", "", <<>>)]
         ELSE LET st == FoldChecks(c.all, b.cs) IN
-             [err |-> FALSE, st |-> st, n |-> Node("Clause", st, "", VNodes(b.cs))]
+             [err |-> FALSE, st |-> st, n |-> Node("Clause", st, "", VNodes(b.cs, MsgOf(c)))]
 
 \* RootScope::rule_status without the cache (eval_context.rs:1087-1115): the rules of that
 \* name in file order until one is not SKIP.  Always evaluated in the root scope.
@@ -375,7 +418,8 @@ EvalNamed(X, c, env) ==
        ELSE LET pass == (r.st = "PASS") # c.neg
                 st == IF pass THEN "PASS" ELSE "FAIL"
                 vk == IF pass THEN "Success" ELSE "DependentRule" IN
-            [err |-> FALSE, st |-> st, n |-> [k |-> "Value", st |-> st, n |-> "", vk |-> vk, ch |-> <<>>]]
+            [err |-> FALSE, st |-> st,
+             n |-> [Node("Value", st, "", <<>>) EXCEPT !.vk = vk, !.msg = IF pass THEN "" ELSE MsgOf(c)]]
 
 \* `query { ... }` (eval.rs:1303-1426)
 BlockValues(X, c, vals, j, env, cnt, acc) ==
@@ -383,7 +427,7 @@ BlockValues(X, c, vals, j, env, cnt, acc) ==
   ELSE
     IF IsUnres(vals[j]) THEN
       BlockValues(X, c, vals, j + 1, env, <<cnt[1] + 1, cnt[2]>>,
-                  Append(acc, VNode(VFail("MissingBlockValue", vals[j], <<>>))))
+                  Append(acc, VNode(VFail("MissingBlockValue", vals[j], <<>>), "")))
     ELSE
       LET r == EvalBody(X, c.lets, c.b, Append(env, VScope(vals[j].v))) IN
       IF r.err THEN r
@@ -479,9 +523,12 @@ EvalPCall(X, c, env) ==
                           Append(env, [k |-> "params", binds |-> binds])) IN
         \* DOC(C03 / CLAUSES.md): `not` inverts.  The pinned implementation parses the prefix
         \* negation of a call but never applies it (eval.rs:1617) (deviation).
-        IF r.err \/ ~c.neg \/ "prefix_not_ignored_on_call" \in X.dev THEN r
-        ELSE LET st == IF r.st = "PASS" THEN "FAIL" ELSE "PASS" IN
-             [err |-> FALSE, st |-> st, n |-> r.n]
+        IF r.err THEN r
+        ELSE LET named == [r.n EXCEPT !.msg = MsgOf(c)] IN      \* eval.rs:1555-1571
+             IF ~c.neg \/ "prefix_not_ignored_on_call" \in X.dev
+             THEN [err |-> FALSE, st |-> r.st, n |-> named]
+             ELSE LET st == IF r.st = "PASS" THEN "FAIL" ELSE "PASS" IN
+                  [err |-> FALSE, st |-> st, n |-> named]
 
 \* rule (eval.rs:1837-1906)
 EvalRule(X, rule, env) ==
@@ -537,7 +584,7 @@ Denote(F, doc, dev) ==
   IF HasCycle(F) THEN [kind |-> "err", e |-> "rule-reference-cycle"]
   ELSE
     LET X == [F |-> F, dev |-> dev]
-        root == WithPaths(doc, <<>>)
+        root == DocPaths(doc)
         rootEnv == <<[k |-> "root", root |-> root, lets |-> F.lets]>>
         r == FileRules(X, 1, rootEnv, <<0, 0>>, <<>>)
     IN IF r.err THEN [kind |-> "err", e |-> r.e]
